@@ -1,8 +1,838 @@
-//! Engine `proccap` (stub).
+//! Engine `proccap` (C16): captured child output is complete or an error, never silently
+//! truncated; the child is not left running; exit codes; non-captured streams read as null.
+//!
+//! Each run writes a plan file for `vhelper emit`, runs a script through the real pipeline with
+//! chosen caps, injected delays at the runner's hook points and a chosen poll interval, and checks
+//! the result against the plan. The event log of the runner gives every run an interleaving
+//! signature (coverage, never a verdict).
+//!
+//! Options: `--vhelper PATH --scratch DIR --stage matrix|random [--dump 1]`.
+
+use std::time::{Duration, Instant};
+
+use naijascript::process::{HostPolicy, ProcessCaps};
+use naijascript::verif;
+use serde_json::{Value as J, json};
+
+use super::procspec::{Endings, caps_json, endings, hex, lit, lit_ok};
 use crate::Ctx;
+use crate::pipeline::{self, RunCfg};
+use crate::util::{self, Rng};
+
+// ---------------------------------------------------------------------------
+// Plan
+// ---------------------------------------------------------------------------
+
+/// Position code shared with the helper (harness/src/bin/vhelper.rs::code_byte).
+fn code_byte(stream: u8, k: u64) -> u8 {
+    let base = if stream == 1 { b'a' } else { b'A' };
+    base + ((k + (k / 26) * 7 + (k / 676) * 3) % 26) as u8
+}
+
+#[derive(Clone, Debug)]
+enum Step {
+    Write(u64),
+    Sleep(u64),
+    Close,
+}
+
+#[derive(Clone, Debug, Default)]
+struct StreamPlan {
+    steps: Vec<Step>,
+    patches: Vec<(u64, Vec<u8>)>,
+}
+
+impl StreamPlan {
+    fn total(&self) -> u64 {
+        let mut n = 0;
+        for s in &self.steps {
+            match s {
+                Step::Write(k) => n += k,
+                Step::Close => break,
+                Step::Sleep(..) => {}
+            }
+        }
+        n
+    }
+
+    fn sleep_ms(&self) -> u64 {
+        self.steps.iter().map(|s| if let Step::Sleep(ms) = s { *ms } else { 0 }).sum()
+    }
+
+    fn writes(&self) -> u64 {
+        self.steps.iter().filter(|s| matches!(s, Step::Write(..))).count() as u64
+    }
+
+    /// The bytes the child writes to this stream.
+    fn content(&self, stream: u8) -> Vec<u8> {
+        let n = self.total();
+        let mut v: Vec<u8> = (0..n).map(|k| code_byte(stream, k)).collect();
+        for (at, bytes) in &self.patches {
+            for (j, b) in bytes.iter().enumerate() {
+                let pos = at + j as u64;
+                if pos < n {
+                    v[pos as usize] = *b;
+                }
+            }
+        }
+        v
+    }
+
+    fn json(&self) -> J {
+        J::Array(
+            self.steps
+                .iter()
+                .map(|s| match s {
+                    Step::Write(n) => json!({"write": n}),
+                    Step::Sleep(ms) => json!({"sleep": ms}),
+                    Step::Close => json!({"close": true}),
+                })
+                .collect(),
+        )
+    }
+
+    fn patch_json(&self) -> J {
+        J::Array(self.patches.iter().map(|(at, b)| json!([at, hex(b)])).collect())
+    }
+}
+
+#[derive(Clone, Debug, PartialEq)]
+enum End {
+    Exit(i32),
+    Hang,
+}
+
+#[derive(Clone, Debug)]
+struct Plan {
+    out: StreamPlan,
+    err: StreamPlan,
+    linger_ms: u64,
+    end: End,
+}
+
+impl Plan {
+    fn json(&self) -> J {
+        json!({
+            "stdout": self.out.json(),
+            "stderr": self.err.json(),
+            "patch": {"stdout": self.out.patch_json(), "stderr": self.err.patch_json()},
+            "linger_ms": self.linger_ms,
+            "end": match self.end { End::Exit(c) => json!({"exit": c}), End::Hang => json!({"hang": true}) },
+        })
+    }
+
+    /// Lower bound-free estimate of how long the child runs by itself.
+    fn child_ms(&self) -> u64 {
+        self.out.sleep_ms().max(self.err.sleep_ms()) + self.linger_ms
+    }
+}
+
+#[derive(Clone, Copy, Debug, PartialEq)]
+enum Pol {
+    Capture,
+    Inherit,
+    Null,
+}
+
+impl Pol {
+    fn name(self) -> &'static str {
+        match self {
+            Pol::Capture => "capture",
+            Pol::Inherit => "inherit",
+            Pol::Null => "null",
+        }
+    }
+    fn from(i: u64) -> Pol {
+        [Pol::Capture, Pol::Inherit, Pol::Null][(i % 3) as usize]
+    }
+}
+
+const DELAY_POINTS: [&str; 5] =
+    ["reader_before_read", "reader_before_overflow", "wait_before_overflow_check", "wait_before_try_wait", "before_join_capture"];
+
+struct Case {
+    plan: Plan,
+    po: Pol,
+    pe: Pol,
+    cap: u32,
+    poll_ms: u32,
+    /// explicit `timeout_ms(..)`; None = the policy's default
+    timeout_ms: Option<u64>,
+    default_timeout_ms: u32,
+    delays: Vec<(&'static str, u64)>,
+    label: String,
+}
+
+// ---------------------------------------------------------------------------
+// Generation
+// ---------------------------------------------------------------------------
+
+const CHUNKS: [u64; 7] = [1, 4095, 8191, 8192, 8193, 65536, 65537];
+const CAPS: [u32; 14] = [1000, 4095, 4096, 8191, 8192, 8193, 10_000, 16_384, 20_000, 32_768, 65_535, 65_536, 65_537, 70_000];
+const EXIT_CODES: [i32; 5] = [0, 1, 2, 127, 255];
+/// budget for sleeps inside one stream's plan
+const SLEEP_BUDGET_MS: u64 = 300;
+
+fn chunked(rng: &mut Rng, total: u64, chunk: u64, gap_ms: u64) -> Vec<Step> {
+    let mut steps = Vec::new();
+    let mut left = total;
+    let chunk = chunk.max(1);
+    let n_chunks = total.div_ceil(chunk);
+    // many tiny writes: no sleeping in between, and not more than a few thousand of them
+    let gap = if n_chunks * gap_ms > SLEEP_BUDGET_MS { 0 } else { gap_ms };
+    let chunk = if n_chunks > 3000 { total.div_ceil(3000) } else { chunk };
+    let _ = rng;
+    while left > 0 {
+        let n = left.min(chunk);
+        steps.push(Step::Write(n));
+        left -= n;
+        if left > 0 && gap > 0 {
+            steps.push(Step::Sleep(gap));
+        }
+    }
+    steps
+}
+
+fn stream_plan(rng: &mut Rng, total: u64) -> StreamPlan {
+    let chunk = match rng.weighted(&[3, 6]) {
+        0 => total.max(1),
+        _ => *rng.pick(&CHUNKS),
+    };
+    let gap = *rng.pick(&[0u64, 0, 1, 5, 20]);
+    let mut steps = chunked(rng, total, chunk, gap);
+    if rng.chance(1, 6) {
+        // a pause before the first byte
+        steps.insert(0, Step::Sleep(*rng.pick(&[1u64, 5, 20])));
+    }
+    if rng.chance(1, 4) {
+        steps.push(Step::Close);
+    }
+    StreamPlan { steps, patches: Vec::new() }
+}
+
+/// Valid multi-byte characters at offsets that matter (chunk boundaries, the end).
+fn add_multibyte(rng: &mut Rng, sp: &mut StreamPlan) {
+    let n = sp.total();
+    if n < 8 {
+        return;
+    }
+    let chars: [&[u8]; 3] = ["é".as_bytes(), "€".as_bytes(), "😀".as_bytes()];
+    for _ in 0..rng.range(1, 3) {
+        let c = *rng.pick(&chars);
+        let at = match rng.below(4) {
+            0 => 8191u64.saturating_sub(rng.below(c.len() as u64)),
+            1 => n - c.len() as u64,
+            2 => 0,
+            _ => rng.below(n - 4),
+        };
+        if at + c.len() as u64 <= n && !sp.patches.iter().any(|(p, b)| at < p + b.len() as u64 + 4 && *p < at + c.len() as u64 + 4) {
+            sp.patches.push((at, c.to_vec()));
+        }
+    }
+}
+
+fn add_invalid(rng: &mut Rng, sp: &mut StreamPlan) -> bool {
+    let n = sp.total();
+    if n == 0 {
+        return false;
+    }
+    let bad: [&[u8]; 5] = [&[0xFF], &[0x80], &[0xC3], &[0xE2, 0x82], &[0xC0, 0xAF]];
+    let b = *rng.pick(&bad);
+    let at = match rng.below(3) {
+        0 => 0,
+        1 => n.saturating_sub(b.len() as u64),
+        _ => rng.below(n),
+    };
+    if at + b.len() as u64 > n {
+        return false;
+    }
+    sp.patches.retain(|(p, pb)| at + b.len() as u64 + 4 <= *p || p + pb.len() as u64 + 4 <= at);
+    // a lone lead byte is only invalid when an ASCII letter (or the end) follows: true here
+    sp.patches.push((at, b.to_vec()));
+    true
+}
+
+fn draw_delays(rng: &mut Rng) -> Vec<(&'static str, u64)> {
+    let mut v = Vec::new();
+    for p in DELAY_POINTS {
+        let ms = [0u64, 1, 20, 200][rng.weighted(&[60, 14, 16, 10])];
+        if ms > 0 {
+            v.push((p, ms));
+        }
+    }
+    v
+}
+
+/// Keeps a run short: the reader delay is paid once per read.
+fn tame_delays(case: &mut Case) {
+    let reads = |sp: &StreamPlan, pol: Pol| if pol == Pol::Capture { sp.writes() + sp.total() / 8192 + 2 } else { 0 };
+    let n = reads(&case.plan.out, case.po).max(reads(&case.plan.err, case.pe));
+    for d in &mut case.delays {
+        if d.0 == "reader_before_read" {
+            while d.1 > 1 && d.1 * n > 1500 {
+                d.1 = if d.1 > 20 { 20 } else { 1 };
+            }
+            if d.1 * n > 1500 {
+                d.1 = 0;
+            }
+        }
+    }
+    case.delays.retain(|d| d.1 > 0);
+}
+
+fn base_case(plan: Plan, po: Pol, pe: Pol, cap: u32, label: &str) -> Case {
+    Case { plan, po, pe, cap, poll_ms: 10, timeout_ms: None, default_timeout_ms: 900_000, delays: Vec::new(), label: label.to_string() }
+}
+
+fn one_write(n: u64) -> StreamPlan {
+    StreamPlan { steps: if n > 0 { vec![Step::Write(n)] } else { Vec::new() }, patches: Vec::new() }
+}
+
+const MATRIX: u64 = 9 * 3 * 5;
+const DIRECTED: u64 = 48;
+pub const MATRIX_STAGE_COUNT: u64 = MATRIX + DIRECTED;
+
+fn matrix_case(rng: &mut Rng, idx: u64) -> Case {
+    if idx < MATRIX {
+        // all nine policy pairs x {under, at, over} x exit codes
+        let po = Pol::from(idx % 3);
+        let pe = Pol::from((idx / 3) % 3);
+        let rel = (idx / 9) % 3;
+        let code = EXIT_CODES[((idx / 27) % 5) as usize];
+        let cap = *rng.pick(&[1000u32, 4096, 8192, 9000]);
+        let size = |rng: &mut Rng| -> u64 {
+            match rel {
+                0 => u64::from(cap) - 1 - rng.below(200),
+                1 => u64::from(cap),
+                _ => u64::from(cap) + 1 + rng.below(200),
+            }
+        };
+        let (a, b) = (size(rng), size(rng));
+        // an inherited stream goes to the worker's own stderr file: keep that small
+        let a = if po == Pol::Inherit { a.min(64) } else { a };
+        let b = if pe == Pol::Inherit { b.min(64) } else { b };
+        let plan = Plan { out: one_write(a), err: one_write(b), linger_ms: 0, end: End::Exit(code) };
+        let mut c = base_case(plan, po, pe, cap, &format!("matrix.{}", ["under", "at", "over"][rel as usize]));
+        c.poll_ms = rng.range(1, 20) as u32;
+        return c;
+    }
+    // directed schedules
+    let k = (idx - MATRIX) % 16;
+    let which = if rng.chance(1, 2) { 1u8 } else { 2 };
+    let cap = *rng.pick(&[1000u32, 4096, 8192, 20_000]);
+    let over = u64::from(cap) + *rng.pick(&[1u64, 100, 8192, 30_000]);
+    let streams = |n: u64, other: u64| if which == 1 { (one_write(n), one_write(other)) } else { (one_write(other), one_write(n)) };
+    let mut c = match k {
+        0 | 1 => {
+            // child exits before the reader raises the flag: only the post-exit re-check can catch it
+            let (out, err) = streams(over, 10);
+            let mut c = base_case(Plan { out, err, linger_ms: 0, end: End::Exit(0) }, Pol::Capture, Pol::Capture, cap, "directed.exit_before_overflow_raised");
+            c.delays = vec![("reader_before_overflow", 200)];
+            c
+        }
+        2 | 3 => {
+            // child lingers: the wait loop sees the flag and kills
+            let (out, err) = streams(over, 10);
+            base_case(Plan { out, err, linger_ms: 300, end: End::Exit(0) }, Pol::Capture, Pol::Capture, cap, "directed.overflow_seen_by_wait_loop")
+        }
+        4 | 5 => {
+            // flag raised between the overflow check and try_wait
+            let (out, err) = streams(over, 10);
+            let mut c = base_case(Plan { out, err, linger_ms: 0, end: End::Exit(0) }, Pol::Capture, Pol::Capture, cap, "directed.flag_between_check_and_try_wait");
+            c.delays = vec![("wait_before_try_wait", 200), ("reader_before_overflow", 20)];
+            c
+        }
+        6 => {
+            // both streams over
+            let mut c = base_case(Plan { out: one_write(over), err: one_write(over + 7), linger_ms: 0, end: End::Exit(0) }, Pol::Capture, Pol::Capture, cap, "directed.both_over");
+            c.delays = if rng.chance(1, 2) { vec![("reader_before_overflow", 20)] } else { Vec::new() };
+            c
+        }
+        7 => {
+            // never finishes, output under the cap
+            let (out, err) = streams(u64::from(cap) / 2, 10);
+            let mut c = base_case(Plan { out, err, linger_ms: 0, end: End::Hang }, Pol::from(rng.below(3)), Pol::from(rng.below(3)), cap, "directed.hang_under_cap");
+            c.timeout_ms = Some(*rng.pick(&[30u64, 100, 300]));
+            c
+        }
+        8 => {
+            // never finishes, output over the cap: either error is right
+            let (out, err) = streams(over, 10);
+            let mut c = base_case(Plan { out, err, linger_ms: 0, end: End::Hang }, Pol::Capture, Pol::Capture, cap, "directed.hang_over_cap");
+            c.timeout_ms = Some(*rng.pick(&[30u64, 100, 300]));
+            c
+        }
+        9 | 10 => {
+            // invalid UTF-8 within the cap
+            let (mut out, mut err) = streams(u64::from(cap) - rng.below(500), 10);
+            add_invalid(rng, if which == 1 { &mut out } else { &mut err });
+            base_case(Plan { out, err, linger_ms: 0, end: End::Exit(*rng.pick(&EXIT_CODES)) }, Pol::Capture, Pol::Capture, cap, "directed.invalid_utf8")
+        }
+        11 => {
+            // valid multi-byte text across read-chunk boundaries, exactly at the cap
+            let cap = *rng.pick(&[8192u32, 16_384, 20_000]);
+            let (mut out, mut err) = streams(u64::from(cap), 10);
+            add_multibyte(rng, &mut out);
+            add_multibyte(rng, &mut err);
+            base_case(Plan { out, err, linger_ms: 0, end: End::Exit(0) }, Pol::Capture, Pol::Capture, cap, "directed.multibyte_at_cap")
+        }
+        12 => {
+            // more than a pipe buffer, exactly at / one over a large cap, slow reader
+            let cap = *rng.pick(&[65_536u32, 65_537, 70_000]);
+            let n = u64::from(cap) + rng.below(2);
+            let (out, err) = streams(n, 10);
+            let mut c = base_case(Plan { out, err, linger_ms: 0, end: End::Exit(0) }, Pol::Capture, Pol::Capture, cap, "directed.pipe_buffer");
+            c.delays = vec![("reader_before_read", 20)];
+            c
+        }
+        13 => {
+            // stream closed early, child lingers
+            let (mut out, mut err) = streams(u64::from(cap) - 1, 10);
+            out.steps.push(Step::Close);
+            err.steps.push(Step::Close);
+            base_case(Plan { out, err, linger_ms: 50, end: End::Exit(*rng.pick(&EXIT_CODES)) }, Pol::Capture, Pol::Capture, cap, "directed.close_then_linger")
+        }
+        14 => {
+            // over the cap on a stream that is not captured: not an error
+            let (out, err) = streams(over, 10);
+            let (po, pe) = if which == 1 { (Pol::Null, Pol::Capture) } else { (Pol::Capture, Pol::Null) };
+            base_case(Plan { out, err, linger_ms: 0, end: End::Exit(*rng.pick(&EXIT_CODES)) }, po, pe, cap, "directed.over_on_noncaptured")
+        }
+        _ => {
+            // slow join: the reader is still draining when the child has gone
+            let (out, err) = streams(over, u64::from(cap));
+            let mut c = base_case(Plan { out, err, linger_ms: 0, end: End::Exit(3) }, Pol::Capture, Pol::Capture, cap, "directed.slow_reader_and_join");
+            c.delays = vec![("reader_before_read", 20), ("before_join_capture", 20), ("reader_before_overflow", 200)];
+            c
+        }
+    };
+    c.poll_ms = rng.range(1, 20) as u32;
+    tame_delays(&mut c);
+    c
+}
+
+fn random_case(rng: &mut Rng) -> Case {
+    let cap = *rng.pick(&CAPS);
+    let capu = u64::from(cap);
+    let po = [Pol::Capture, Pol::Inherit, Pol::Null][rng.weighted(&[7, 1, 2])];
+    let pe = [Pol::Capture, Pol::Inherit, Pol::Null][rng.weighted(&[6, 1, 2])];
+    let size = |rng: &mut Rng, pol: Pol| -> u64 {
+        if pol == Pol::Inherit {
+            return *rng.pick(&[0u64, 1, 64, 2000]);
+        }
+        match rng.weighted(&[1, 2, 2, 3, 4, 3, 2, 2, 2, 2]) {
+            0 => 0,
+            1 => 1 + rng.below(100),
+            2 => capu.saturating_sub(8192),
+            3 => capu - 1,
+            4 => capu,
+            5 => capu + 1,
+            6 => capu + 8192,
+            7 => capu + 1 + rng.below(capu),
+            8 => 2 * capu + rng.below(100_000),
+            _ => rng.below(capu),
+        }
+    };
+    let (a, b) = (size(rng, po), size(rng, pe));
+    let mut out = stream_plan(rng, a);
+    let mut err = stream_plan(rng, b);
+    if rng.chance(1, 4) {
+        add_multibyte(rng, &mut out);
+    }
+    if rng.chance(1, 4) {
+        add_multibyte(rng, &mut err);
+    }
+    if rng.chance(1, 8) {
+        let first = rng.chance(1, 2);
+        add_invalid(rng, if first { &mut out } else { &mut err });
+    }
+    let hang = rng.chance(1, 12);
+    let end = if hang { End::Hang } else { End::Exit(*rng.pick(&EXIT_CODES)) };
+    let linger_ms = *rng.pick(&[0u64, 0, 50]);
+    let mut c = base_case(Plan { out, err, linger_ms, end }, po, pe, cap, "random");
+    c.poll_ms = rng.range(1, 20) as u32;
+    if hang {
+        c.timeout_ms = Some(*rng.pick(&[30u64, 100, 300]));
+    } else {
+        // finishing children: the timeout is at least 60 s, the child needs well under a second
+        c.timeout_ms = *rng.pick(&[None, None, Some(60_000u64), Some(600_000)]);
+        c.default_timeout_ms = *rng.pick(&[120_000u32, 900_000]);
+    }
+    c.delays = draw_delays(rng);
+    tame_delays(&mut c);
+    c
+}
+
+// ---------------------------------------------------------------------------
+// Running and checking
+// ---------------------------------------------------------------------------
+
+fn script_of(vhelper: &str, plan_path: &str, c: &Case) -> String {
+    let mut s = String::new();
+    s.push_str(&format!("make c get command({})\nc.arg(\"emit\")\nc.arg({})\n", lit(vhelper), lit(plan_path)));
+    s.push_str(&format!("c.stdout_{}()\nc.stderr_{}()\nc.stdin_null()\n", c.po.name(), c.pe.name()));
+    if let Some(t) = c.timeout_ms {
+        s.push_str(&format!("c.timeout_ms({t})\n"));
+    }
+    s.push_str("make r get c.run()\nshout(r.success())\nshout(r.exit_code())\nshout(typeof(r.stdout()))\nshout(r.stdout())\nshout(typeof(r.stderr()))\nshout(r.stderr())\n");
+    s
+}
+
+/// Is the helper that was started for `plan_path` still there (and not merely a zombie)?
+fn helper_alive(pid: u64, plan_path: &str) -> &'static str {
+    if pid == 0 {
+        return "gone";
+    }
+    let rc = unsafe { libc::kill(pid as i32, 0) };
+    if rc != 0 && std::io::Error::last_os_error().raw_os_error() == Some(libc::ESRCH) {
+        return "gone";
+    }
+    // the pid exists: is it still our helper (pids are reused)?
+    let stat = std::fs::read_to_string(format!("/proc/{pid}/stat")).unwrap_or_default();
+    let Some(rest) = stat.rsplit_once(')').map(|(_, r)| r.trim_start()) else { return "gone" };
+    let mut it = rest.split_whitespace();
+    let state = it.next().unwrap_or("?");
+    let ppid: u64 = it.next().and_then(|p| p.parse().ok()).unwrap_or(0);
+    if ppid != u64::from(std::process::id()) {
+        return "gone";
+    }
+    if state == "Z" || state == "X" {
+        return "zombie";
+    }
+    // a live child of this worker with that pid: the worker runs one command at a time, so it is
+    // the helper started for `plan_path`
+    let _ = plan_path;
+    "alive"
+}
+
+fn signature(events: &[verif::ProcEvent]) -> String {
+    let mut seen: Vec<String> = Vec::new();
+    for e in events {
+        let code = match e.kind {
+            "reader_overflow" => format!("ovf{}", e.stream),
+            "reader_eof" => format!("eof{}", e.stream),
+            "join_recheck" => format!("join{}", e.stream),
+            "wait_saw_exit" => "EXIT".to_string(),
+            "wait_saw_overflow" => "SAWOVF".to_string(),
+            "wait_timeout" => "TIMEOUT".to_string(),
+            _ => continue,
+        };
+        if !seen.contains(&code) {
+            seen.push(code);
+        }
+    }
+    seen.join(">")
+}
+
+fn first_seq(events: &[verif::ProcEvent], kind: &str) -> Option<u64> {
+    events.iter().find(|e| e.kind == kind).map(|e| e.seq)
+}
+
+fn classify_capture(stream: &str, other_alphabet: std::ops::RangeInclusive<u8>, got: &[u8], want: &[u8]) -> (String, J) {
+    let k = got.iter().zip(want).position(|(a, b)| a != b).unwrap_or(got.len().min(want.len()));
+    let sig = if got.len() < want.len() && want.starts_with(got) {
+        format!("truncated-success|{stream}")
+    } else if got.iter().any(|b| other_alphabet.contains(b)) {
+        "cross-stream".to_string()
+    } else if got.len() > want.len() && got.starts_with(want) {
+        format!("extra-bytes|{stream}")
+    } else {
+        format!("corrupted-capture|{stream}")
+    };
+    (
+        sig,
+        json!({"stream": stream, "captured_len": got.len(), "written_len": want.len(), "first_difference_at": k,
+               "captured_there": String::from_utf8_lossy(&got[k.min(got.len())..(k + 24).min(got.len())]),
+               "written_there": String::from_utf8_lossy(&want[k.min(want.len())..(k + 24).min(want.len())])}),
+    )
+}
+
+fn run_case(ctx: &mut Ctx, e: &Endings, vhelper: &str, scratch: &str, stage: &str, idx: u64, dump: bool) {
+    let mut rng = Rng::new(util::case_seed(ctx.seed, &format!("proccap-{stage}"), idx));
+    let case = if stage == "matrix" { matrix_case(&mut rng, idx) } else { random_case(&mut rng) };
+    let plan_path = format!("{scratch}/p/{}{idx}.json", &stage[..1]);
+    let pid_path = format!("{plan_path}.pid");
+    let plan_json = case.plan.json();
+    if std::fs::write(&plan_path, plan_json.to_string()).is_err() {
+        ctx.out.inconclusive(idx, "cannot write plan file", json!({"path": plan_path}));
+        return;
+    }
+    let _ = std::fs::remove_file(&pid_path);
+    let src = script_of(vhelper, &plan_path, &case);
+    let mut caps = ProcessCaps::defaults();
+    caps.max_capture_bytes_per_stream = case.cap;
+    caps.wait_poll_ms = case.poll_ms;
+    caps.default_timeout_ms = case.default_timeout_ms;
+    let delays_json: J = J::Array(case.delays.iter().map(|(p, ms)| json!([p, ms])).collect());
+    let replay = json!({"engine": "proccap", "stage": stage, "seed": ctx.seed, "idx": idx, "label": case.label, "src": src,
+                        "plan": plan_json, "caps": caps_json(&caps), "delays": delays_json,
+                        "stdout_policy": case.po.name(), "stderr_policy": case.pe.name()});
+    if dump {
+        eprintln!("### {stage} {idx} {replay}");
+    }
+
+    let policy = HostPolicy { allow_process: true, process: caps };
+    verif::proc_log_start(&case.delays);
+    let t0 = Instant::now();
+    let result = util::guarded(|| pipeline::run_source_with_policy(&src, RunCfg::default(), policy));
+    let elapsed_ms = t0.elapsed().as_millis() as u64;
+    let events = verif::proc_log_take();
+    let real = match result {
+        Ok(r) => r,
+        Err((msg, loc)) => {
+            let sig = format!("panic|{}|{}", util::normalise_msg(&msg), util::panic_site(&loc));
+            ctx.out.fail(idx, &sig, json!({"panic": msg, "at": loc}), replay);
+            return;
+        }
+    };
+    if !real.accepted {
+        ctx.out.inconclusive(idx, "script rejected by the front end", json!({"parse": format!("{:?}", real.parse.first()), "sem": format!("{:?}", real.sem.first())}));
+        return;
+    }
+    let ending = real.ending.as_str();
+    let sig_inter = signature(&events);
+
+    // the child must be gone, whatever the outcome was
+    let pid = events
+        .iter()
+        .find(|ev| ev.kind == "spawned")
+        .map(|ev| ev.value)
+        .or_else(|| std::fs::read_to_string(&pid_path).ok().and_then(|t| t.trim().parse().ok()))
+        .unwrap_or(0);
+    let t_live = Instant::now();
+    let mut state = helper_alive(pid, &plan_path);
+    while state == "alive" && t_live.elapsed() < Duration::from_secs(5) {
+        std::thread::sleep(Duration::from_millis(20));
+        state = helper_alive(pid, &plan_path);
+    }
+    if state == "alive" {
+        unsafe { libc::kill(pid as i32, libc::SIGKILL) };
+        ctx.out.fail(idx, "child-left-running", json!({"pid": pid, "ending": ending, "interleaving": sig_inter, "waited_ms": t_live.elapsed().as_millis() as u64}), replay);
+        return;
+    }
+    if state == "zombie" {
+        ctx.out.tag("child.zombie_after_return");
+    }
+    let _ = std::fs::remove_file(&plan_path);
+    let _ = std::fs::remove_file(&pid_path);
+
+    if ending == e.spawn {
+        ctx.out.inconclusive(idx, "helper could not be started", json!({"runtime": format!("{:?}", real.runtime.first())}));
+        return;
+    }
+    if pid == 0 {
+        ctx.out.inconclusive(idx, "no spawn event and no pid file", json!({"ending": ending}));
+        return;
+    }
+
+    // expectation from the plan
+    let cap = u64::from(case.cap);
+    let want_out = case.plan.out.content(1);
+    let want_err = case.plan.err.content(2);
+    let cap_out = case.po == Pol::Capture;
+    let cap_err = case.pe == Pol::Capture;
+    let over_out = cap_out && want_out.len() as u64 > cap;
+    let over_err = cap_err && want_err.len() as u64 > cap;
+    let bad_out = cap_out && std::str::from_utf8(&want_out).is_err();
+    let bad_err = cap_err && std::str::from_utf8(&want_err).is_err();
+    let multibyte = !case.plan.out.patches.is_empty() || !case.plan.err.patches.is_empty();
+    let hang = case.plan.end == End::Hang;
+    let mut allowed: Vec<&str> = Vec::new();
+    if hang {
+        allowed.push(e.timeout);
+        if over_out || over_err {
+            allowed.push(e.limit);
+        }
+    } else if over_out || over_err {
+        allowed.push(e.limit);
+        // two conditions at once: either error is a correct report. A second over-cap stream is cut
+        // at an arbitrary byte, which can split a character.
+        if bad_out || bad_err || (over_out && over_err && multibyte) {
+            allowed.push(e.utf8);
+        }
+    } else if bad_out || bad_err {
+        allowed.push(e.utf8);
+    } else {
+        allowed.push("ok");
+    }
+    let detail_base = json!({"ending": ending, "allowed": allowed, "interleaving": sig_inter, "elapsed_ms": elapsed_ms,
+                             "stdout_written": want_out.len(), "stderr_written": want_err.len(), "cap": cap});
+
+    if !allowed.contains(&ending) {
+        if ending == e.timeout {
+            let t = case.timeout_ms.unwrap_or(u64::from(case.default_timeout_ms));
+            if elapsed_ms < t {
+                ctx.out.fail(idx, "premature-timeout", detail_base, replay);
+            } else {
+                ctx.out.inconclusive(idx, "finishing child ran into its (huge) timeout: machine too slow", detail_base);
+            }
+            return;
+        }
+        let sig = if ending == "ok" {
+            if hang {
+                "hang-reported-as-success".to_string()
+            } else if over_out || over_err {
+                format!("overflow-reported-as-success|{}", if over_out { "stdout" } else { "stderr" })
+            } else {
+                "invalid-utf8-success".to_string()
+            }
+        } else if allowed == ["ok"] {
+            format!("spurious-error|{ending}")
+        } else {
+            format!("wrong-error|{ending}")
+        };
+        ctx.out.fail(idx, &sig, detail_base, replay);
+        return;
+    }
+    // the error names a stream: when exactly one captured stream is at fault it must not be the other
+    if !hang && (ending == e.limit || ending == e.utf8) {
+        let (a, b) = if ending == e.limit { (over_out, over_err) } else { (bad_out && !over_err, bad_err && !over_out) };
+        let only = if ending == e.utf8 && (over_out || over_err) { None } else if a && !b { Some(("stdout", "stderr")) } else if b && !a { Some(("stderr", "stdout")) } else { None };
+        let label: String = real.runtime.iter().find(|d| d.severity == "error").map(|d| d.labels.iter().map(|l| l.2.clone()).collect::<Vec<_>>().join(" | ")).unwrap_or_default();
+        if let Some((right, wrong)) = only {
+            if label.contains(wrong) && !label.contains(right) {
+                let mut d = detail_base.clone();
+                d["label"] = json!(label);
+                d["stream_at_fault"] = json!(right);
+                ctx.out.fail(idx, "wrong-stream-in-error", d, replay);
+                return;
+            }
+            if label.contains(right) {
+                ctx.out.tag("error_label_names_the_stream_at_fault");
+            }
+        }
+    }
+    if hang && ending == e.timeout {
+        let t = case.timeout_ms.unwrap_or(0);
+        if elapsed_ms < t {
+            ctx.out.fail(idx, "premature-timeout", detail_base, replay);
+            return;
+        }
+    }
+
+    if ending == "ok" {
+        let End::Exit(code) = case.plan.end else { unreachable!() };
+        if real.output.len() != 6 {
+            ctx.out.fail(idx, "result-shape", json!({"output_len": real.output.len()}), replay);
+            return;
+        }
+        let o = &real.output;
+        if (o[1] == "97" || o[1] == "98") && code != 97 && code != 98 {
+            ctx.out.inconclusive(idx, "helper reported an internal failure (exit 97/98)", json!({"exit_code": o[1]}));
+            return;
+        }
+        if o[0] != format!("{}", code == 0) || o[1] != format!("{code}") {
+            ctx.out.fail(idx, "exit-code", json!({"success": o[0], "exit_code": o[1], "child_exited_with": code}), replay);
+            return;
+        }
+        for (stream, captured, ty, text, want, other) in
+            [("stdout", cap_out, &o[2], &o[3], &want_out, b'A'..=b'Z'), ("stderr", cap_err, &o[4], &o[5], &want_err, b'a'..=b'z')]
+        {
+            if captured {
+                if ty != "string" {
+                    ctx.out.fail(idx, &format!("captured-not-string|{stream}"), json!({"typeof": ty}), replay);
+                    return;
+                }
+                if text.as_bytes() != want.as_slice() {
+                    let (sig, mut detail) = classify_capture(stream, other, text.as_bytes(), want);
+                    detail["interleaving"] = json!(sig_inter);
+                    ctx.out.fail(idx, &sig, detail, replay);
+                    return;
+                }
+                ctx.out.tag_n("captured_bytes_compared", want.len() as u64);
+            } else if ty != "null" {
+                ctx.out.fail(idx, "noncaptured-not-null", json!({"stream": stream, "typeof": ty, "value_head": text.chars().take(40).collect::<String>()}), replay);
+                return;
+            }
+        }
+    }
+
+    // coverage
+    ctx.out.tag(&format!("sig.{sig_inter}"));
+    ctx.out.tag(&format!("ending.{ending}"));
+    ctx.out.tag(&format!("policy.{}+{}", case.po.name(), case.pe.name()));
+    ctx.out.tag(&format!("label.{}", case.label));
+    if let End::Exit(code) = case.plan.end {
+        if ending == "ok" {
+            ctx.out.tag(&format!("exit.{code}"));
+        }
+    }
+    let mut near = false;
+    for (captured, n, name) in [(cap_out, want_out.len() as u64, "stdout"), (cap_err, want_err.len() as u64, "stderr")] {
+        if !captured {
+            continue;
+        }
+        let rel = if n == cap {
+            "at_cap"
+        } else if n + 1 == cap {
+            "cap-1"
+        } else if n == cap + 1 {
+            "cap+1"
+        } else if n < cap && cap - n <= 8192 {
+            "within_chunk_below"
+        } else if n > cap && n - cap <= 8192 {
+            "within_chunk_above"
+        } else if n < cap {
+            "far_below"
+        } else {
+            "far_above"
+        };
+        ctx.out.tag(&format!("size.{name}.{rel}"));
+        if n.abs_diff(cap) <= 8192 {
+            near = true;
+        }
+    }
+    for (p, ms) in &case.delays {
+        ctx.out.tag(&format!("delay.{p}.{ms}ms"));
+    }
+    if case.delays.is_empty() {
+        ctx.out.tag("delay.none");
+    }
+    if over_out || over_err {
+        let ovf = first_seq(&events, "reader_overflow");
+        let exit = first_seq(&events, "wait_saw_exit");
+        let saw = first_seq(&events, "wait_saw_overflow");
+        match (exit, ovf) {
+            (Some(x), Some(o)) if x < o => ctx.out.tag("order.exit_seen_before_overflow_raised"),
+            (Some(x), Some(o)) if o < x => ctx.out.tag("order.overflow_raised_but_exit_seen_first"),
+            (Some(_), None) => ctx.out.tag("order.exit_seen_overflow_never_logged"),
+            _ => {}
+        }
+        if saw.is_some() {
+            ctx.out.tag("order.overflow_seen_by_wait_loop");
+        }
+        if first_seq(&events, "wait_timeout").is_some() {
+            ctx.out.tag("order.timeout_although_over_cap");
+        }
+    }
+    if bad_out || bad_err {
+        ctx.out.tag("content.invalid_utf8_on_captured_stream");
+    } else if multibyte {
+        ctx.out.tag("content.multibyte");
+    }
+    if near || !case.delays.is_empty() {
+        let h = util::hash64(format!("{}{}{}{:?}{}{}", plan_json, case.cap, case.poll_ms, case.delays, case.po.name(), case.pe.name()).as_bytes());
+        ctx.out.nontrivial(h);
+        ctx.out.sample(json!({"label": case.label, "plan": plan_json, "cap": case.cap, "wait_poll_ms": case.poll_ms, "delays": delays_json,
+                              "stdout": case.po.name(), "stderr": case.pe.name(), "ending": ending, "interleaving": sig_inter}));
+    }
+}
 
 pub fn run(ctx: &mut Ctx) {
-    let _ = ctx;
-    eprintln!("engine proccap not implemented");
-    std::process::exit(2);
+    let vhelper = ctx.opt("vhelper").expect("--vhelper").to_string();
+    let scratch = std::fs::canonicalize(ctx.opt("scratch").expect("--scratch")).expect("scratch dir").to_string_lossy().into_owned();
+    assert!(lit_ok(&vhelper) && lit_ok(&scratch));
+    std::fs::create_dir_all(format!("{scratch}/p")).expect("mkdir");
+    // children start in a scratch directory, not in the repository
+    let sandbox = format!("{scratch}/wcwd-{}", ctx.shard);
+    std::fs::create_dir_all(&sandbox).expect("mkdir");
+    std::env::set_current_dir(&sandbox).expect("chdir");
+    let stage = ctx.opt("stage").unwrap_or("random").to_string();
+    let dump = ctx.opt("dump").is_some();
+    let e = endings();
+    for idx in ctx.indices() {
+        ctx.out.begin(idx);
+        ctx.out.evaluations += 1;
+        run_case(ctx, &e, &vhelper, &scratch, &stage, idx, dump);
+    }
 }
